@@ -274,7 +274,7 @@ func init() {
 		case *smt.Term:
 			// the assumption must be satisfiable with the path condition
 			if p.pos >= len(p.prefix) {
-				if p.S.Check(c) == smt.Unsat {
+				if p.feasible(c) == smt.Unsat {
 					p.abortf("assume", "assumption infeasible")
 				}
 			}
@@ -422,14 +422,20 @@ func (p *Path) assertion(cond Value, label Value) {
 			return
 		}
 		neg := p.C.Not(c)
-		vec, res := p.materialiseWith(neg)
+		p.S.Tag = lab
+		var vec []any
+		res := p.feasible(neg)
+		if res == smt.Sat {
+			vec, res = p.materialiseWith(neg)
+		}
+		p.S.Tag = ""
 		switch res {
 		case smt.Sat:
 			v := &Violation{Label: lab, Detail: "assertion can be false", Vector: vec, Log: append([]int32(nil), p.log...)}
 			p.violations = append(p.violations, v)
 			// continue with the assertion assumed, to find further distinct labels
 			p.assume(c)
-			if p.S.Check(nil) == smt.Unsat {
+			if r, _ := p.query(nil); r == smt.Unsat {
 				p.abortf("assume", "assertion never holds on this path")
 			}
 		case smt.Unknown:
@@ -456,14 +462,9 @@ func (p *Path) materialise(extra *smt.Term) ([]any, bool) {
 }
 
 func (p *Path) materialiseWith(extra *smt.Term) ([]any, smt.Result) {
-	vars := p.collectVars()
-	var model map[string]smt.ModelVal
-	res := smt.Sat
-	if len(vars) > 0 || extra != nil {
-		res, model = p.S.Model(extra, vars)
-		if res != smt.Sat {
-			return nil, res
-		}
+	res, model := p.query(extra)
+	if res != smt.Sat {
+		return nil, res
 	}
 	ev := &evaluator{model: model, memo: map[int]smt.ModelVal{}}
 	var out []any
